@@ -546,6 +546,21 @@ def m_call_once(ex, args, callee):
     return ex.call_closure(args[0], [c.v for c in a.items] if isinstance(a, Tup) else [a])
 
 
+def m_int_from(ex, args, callee):
+    m = re.match(r'^<(\w+) as (?:From|TryFrom)<(\w+)>>::(from|try_from)$', callee)
+    dst, src, how = m.group(1), m.group(2), m.group(3)
+    v = args[0]
+    if how == 'from': return ex.int_cast(v, src, dst)
+    from .core import INT_BITS
+    db, sb = INT_BITS[dst], INT_BITS[src]
+    wide = ex.int_cast(v, src, 'i128')
+    lo, hi = (-(1 << (db - 1)), (1 << (db - 1)) - 1) if dst.startswith('i') else (0, (1 << db) - 1)
+    if isinstance(wide, int): fits = lo <= wide <= hi
+    else: fits = z3.And(wide >= lo, wide <= hi)
+    if ex.truth(fits): return ex.ok(ex.int_cast(v, src, dst))
+    return ex.err(Opaque('TryFromIntError'))
+
+
 BASE_MODELS = [
     (r' as PartialEq(<.*>)?>::(eq|ne)$', m_eq),
     (r' as PartialOrd(<.*>)?>::lt$', m_cmp('Lt')), (r' as PartialOrd(<.*>)?>::le$', m_cmp('Le')),
@@ -629,21 +644,6 @@ BASE_MODELS = [
     (r'Pin::<.*>::get_unchecked_mut$|Pin::<.*>::get_mut$|Pin::<.*>::as_mut$|Pin::<.*>::into_inner$', lambda ex, a, c: a[0].fields[None][0].v if isinstance(a[0], Adt) else dv(a[0]).fields[None][0].v),
     (r' as std::future::IntoFuture>::into_future$|as IntoFuture>::into_future$', lambda ex, a, c: a[0]),
 ]
-
-
-def m_int_from(ex, args, callee):
-    m = re.match(r'^<(\w+) as (?:From|TryFrom)<(\w+)>>::(from|try_from)$', callee)
-    dst, src, how = m.group(1), m.group(2), m.group(3)
-    v = args[0]
-    if how == 'from': return ex.int_cast(v, src, dst)
-    from .core import INT_BITS
-    db, sb = INT_BITS[dst], INT_BITS[src]
-    wide = ex.int_cast(v, src, 'i128')
-    lo, hi = (-(1 << (db - 1)), (1 << (db - 1)) - 1) if dst.startswith('i') else (0, (1 << db) - 1)
-    if isinstance(wide, int): fits = lo <= wide <= hi
-    else: fits = z3.And(wide >= lo, wide <= hi)
-    if ex.truth(fits): return ex.ok(ex.int_cast(v, src, dst))
-    return ex.err(Opaque('TryFromIntError'))
 
 
 def m_into(ex, args, callee):
